@@ -17,6 +17,7 @@ import (
 	"sort"
 	"strings"
 	"sync"
+	"sync/atomic"
 	"time"
 
 	"github.com/0xrawsec/sod"
@@ -79,6 +80,32 @@ type Exec struct {
 	sink     func(line string) // when set, trace lines go there instead of `out`
 	before   string            // observation sweep taken before the current call (fault mode)
 	reported bool
+}
+
+// A twin of the flusher's polling loop: a goroutine of this process that sleeps in the same 100 ms
+// steps.  `sleep` waits for the wall-clock time AND for the twin to have completed as many steps
+// as fit into it, so that a process starved of CPU (many checks at once) does not conclude "the
+// timeout elapsed" before its own goroutines could have polled that often.
+var (
+	twinOnce  sync.Once
+	twinSteps int64
+)
+
+func sleepTicks(ms int) {
+	twinOnce.Do(func() {
+		go func() {
+			for {
+				time.Sleep(100 * time.Millisecond)
+				atomic.AddInt64(&twinSteps, 1)
+			}
+		}()
+	})
+	start := atomic.LoadInt64(&twinSteps)
+	time.Sleep(time.Duration(ms) * time.Millisecond)
+	deadline := time.Now().Add(30 * time.Second)
+	for atomic.LoadInt64(&twinSteps)-start < int64(ms/100) && time.Now().Before(deadline) {
+		time.Sleep(10 * time.Millisecond)
+	}
 }
 
 func NewExec(root string, out io.Writer, seed int64) *Exec {
@@ -204,7 +231,7 @@ func (e *Exec) emit(call, result string) {
 	}
 	fmt.Fprintf(e.out, "%s => %s\n", call, result)
 	e.lines++
-	if shimEnabled && !strings.HasPrefix(call, "casemap") && !strings.HasPrefix(call, "open") {
+	if shimEnabled && !strings.HasPrefix(call, "casemap") && !strings.HasPrefix(call, "tags ") && !strings.HasPrefix(call, "open") {
 		// the directory mutations the call performed, in order
 		fmt.Fprintf(e.out, "fsops => %s\n", strings.Join(e.fsops, " "))
 		e.lines++
@@ -418,6 +445,7 @@ func (e *Exec) Run(op Op) {
 		for _, s := range caseAlphabet {
 			e.emit(fmt.Sprintf("casemap %s %s %s %s", hx(s), hx(strings.ToUpper(s)), hx(strings.ToLower(s)), hx(strings.ToLower(strings.ToUpper(s)))), "ok")
 		}
+		e.emitTags()
 
 	case "create":
 		var sch sod.Schema
@@ -737,6 +765,9 @@ func (e *Exec) Run(op Op) {
 		e.tamperSchema(func(m map[string]interface{}) { reshape(m, int(op.N)) })
 		e.emit(fmt.Sprintf("reshape %d", op.N), "ok")
 
+	case "tags":
+		e.emitTags()
+
 	case "rmschema":
 		os.Remove(filepath.Join(e.collDir(), sod.SchemaFilename))
 		e.emit("rmschema", "ok")
@@ -752,7 +783,7 @@ func (e *Exec) Run(op Op) {
 		e.emit(fmt.Sprintf("disk %d", e.handle(u)), e.readRaw(u))
 
 	case "sleep":
-		time.Sleep(time.Duration(op.Ms) * time.Millisecond)
+		sleepTicks(op.Ms)
 
 	case "tick":
 		e.emit(fmt.Sprintf("tick %d", op.N), "ok")
@@ -1170,4 +1201,60 @@ func (e *Exec) afterFault(op Op) {
 	}))
 	e.emit("consistent", guard(func() string { return e.consistent() }))
 	e.aborted = true
+}
+
+// rawTags collects path -> raw `sod` tag of every exported leaf field (the harness' own walk)
+func rawTags(t reflect.Type, path string, out map[string]string) {
+	for i := 0; i < t.NumField(); i++ {
+		f := t.Field(i)
+		if !f.IsExported() || f.Name == "Item" {
+			continue
+		}
+		p := f.Name
+		if path != "" {
+			p = path + "." + f.Name
+		}
+		ft := f.Type
+		if ft.Kind() == reflect.Ptr {
+			ft = ft.Elem()
+		}
+		if ft.Kind() == reflect.Struct {
+			rawTags(ft, p, out)
+			continue
+		}
+		out[p] = f.Tag.Get("sod")
+	}
+}
+
+// emitTags: the constraints sod derives from struct tags, against the raw tag text
+func (e *Exec) emitTags() {
+	// the constraints sod derives from struct tags, against the raw tag text
+	fds := sod.FieldDescriptors(&Tagged{})
+	raw := map[string]string{}
+	rawTags(reflect.TypeOf(Tagged{}), "", raw)
+	paths := make([]string, 0, len(raw))
+	for k := range raw {
+		paths = append(paths, k)
+	}
+	sort.Strings(paths)
+	for _, k := range paths {
+		fd, ok := fds[k]
+		res := "missing"
+		if ok {
+			res = "c"
+			if fd.Constraints.Index {
+				res += "i"
+			}
+			if fd.Constraints.Unique {
+				res += "u"
+			}
+			if fd.Constraints.Upper {
+				res += "U"
+			}
+			if fd.Constraints.Lower {
+				res += "L"
+			}
+		}
+		e.emit(fmt.Sprintf("tags %s %s", hx(k), hx(raw[k])), res)
+	}
 }
